@@ -3,7 +3,7 @@
 // "#ORACLE:<what>" when the library's answer differs from schoolbook arithmetic computed here
 // (independently of the model) on sparse coefficient maps with 64-bit exponents.
 //
-//   <fam> <op> <args>     fam I (UIntPoly) | Q (URatPoly) | B (from_basic / as_symbolic round trip)
+//   <fam> <op> <args>     fam I (UIntPoly) | Q (URatPoly) | E (UExprPoly) | B (from_basic / as_symbolic round trip)
 //   poly: `-` or k:v,k:v,...  (keys decimal, values hex, rationals n/d)
 #include <symengine/polys/uintpoly.h>
 #include <symengine/polys/uratpoly.h>
@@ -391,6 +391,78 @@ static std::string run_roundtrip(const std::string &line)
     return s;
 }
 
+// E <op> <args>: UExprPoly (expression coefficients in the symbol a); the reference is the same
+// operation on the polynomials' symbolic forms, expanded
+static std::string run_expr(const std::vector<std::string> &t)
+{
+    RCP<const Symbol> x = symbol("x");
+    auto mk = [&](const std::string &s) {
+        map_int_Expr m;
+        if (s != "-")
+            for (auto &term : split(s, ',')) {
+                size_t i = term.find(':');
+                m[std::stoi(term.substr(0, i))] = Expression(parse(term.substr(i + 1)));
+            }
+        return UExprPoly::from_dict(x, std::move(m));
+    };
+    const std::string &op = t[1];
+    RCP<const UExprPoly> a = mk(t[2]);
+    RCP<const Basic> as = a->as_symbolic();
+    RCP<const Basic> got, want;
+    if (op == "add" || op == "sub" || op == "mul") {
+        RCP<const UExprPoly> b = mk(t[3]);
+        RCP<const Basic> bs = b->as_symbolic();
+        if (op == "add") {
+            got = add_upoly(*a, *b)->as_symbolic();
+            want = add(as, bs);
+        } else if (op == "sub") {
+            got = sub_upoly(*a, *b)->as_symbolic();
+            want = sub(as, bs);
+        } else {
+            got = mul_upoly(*a, *b)->as_symbolic();
+            want = mul(as, bs);
+        }
+    } else if (op == "neg") {
+        got = neg_upoly(*a)->as_symbolic();
+        want = neg(as);
+    } else if (op == "pow") {
+        unsigned n = (unsigned)std::stoul(t[3]);
+        got = pow_upoly(*a, n)->as_symbolic();
+        want = pow(as, integer(n));
+    } else if (op == "eval") {
+        Expression v(parse(t[3]));
+        got = a->eval(v).get_basic();
+        map_basic_basic sub_map;
+        sub_map[x] = v.get_basic();
+        want = as->subs(sub_map);
+    } else if (op == "diff") {
+        RCP<const Basic> r = a->diff(x);
+        if (!is_a<UExprPoly>(*r))
+            return "NOTPOLY";
+        got = down_cast<const UExprPoly &>(*r).as_symbolic();
+        want = as->diff(x);
+    } else if (op == "deg") {
+        int d = a->get_degree();
+        int wantd = 0;
+        for (auto &p : a->get_poly().dict_)
+            wantd = std::max(wantd, p.first);
+        std::string s = std::to_string(d);
+        if (d != wantd)
+            s += "\t#ORACLE: degree: wrong degree";
+        for (auto &p : a->get_poly().dict_)
+            if (p.second == Expression(0))
+                s += "\t#ORACLE: zero coefficient stored";
+        return s;
+    } else {
+        return "BADOP";
+    }
+    RCP<const Basic> g = expand(got), w = expand(want);
+    std::string s = g->__str__();
+    if (!eq(*g, *w))
+        s += "\t#ORACLE: " + op + ": " + s + " differs from the expanded symbolic result " + w->__str__();
+    return s;
+}
+
 static std::string run_case(const std::string &line)
 {
     std::vector<std::string> t = verif::split_ws(line);
@@ -407,6 +479,8 @@ static std::string run_case(const std::string &line)
                                                                                 string_of_q, false);
         if (t[0] == "B")
             return run_roundtrip(line);
+        if (t[0] == "E")
+            return run_expr(t);
         return "BADLINE";
     } catch (...) {
         return verif::exn_name();
